@@ -6,7 +6,7 @@ from . import rules
 from .rsrc import Crate, mask, match_close, skip_ws, find_loops, find_panics, find_closures, split_path, ScanError
 
 HERE = os.path.dirname(os.path.abspath(__file__))
-CLAUSE_ID = re.compile(r'^\s*([A-Z]\d\d[\w.\-<>&]*|[a-z_][\w.\-]*)\s*::\s+')   # "C04.len:: expr"
+CLAUSE_ID = re.compile(r'^\s*([A-Za-z_][\w.\-<>&]*)::\s+')   # "C04.len:: expr"
 
 
 class AnchorError(Exception):
@@ -64,6 +64,7 @@ class Fn:
 class Unit:
     def __init__(self, name, prop, prove, use=(), types=(), spec='', preludes=('fax_l0', 'stdspec'), level='L0',
                  broadcast=('l0',), consts=(), extra_modules='', notes='', rlimit=30, raw_items=(), type_spec=''):
+        self.consts = list(consts)
         self.type_spec = type_spec
         self.name = name
         self.prop = prop
@@ -252,10 +253,12 @@ class Gen:
         if len(fn.panics) != npanics:
             raise AnchorError('%s: %d panic sites in the code, side-car classifies %d' % (p, npanics, len(fn.panics)))
         text = rules.r7_vec(text, p, log)
+        text = rules.r21_range_contains(text, p, log)
+        text = rules.r22_arr_contains(text, p, log)
         text = rules.r3_compound(text, p, log, fn.r3_skip)
         text = rules.r6_sum(text, p, log)
         text = rules.r5_casts(text, p, log, fn.float_casts)
-        text = rules.r8r9_paths(text, p, log)
+        text = rules.r8r9_paths(text, p, log, extra=[(r'(?<![A-Za-z0-9_:])%s(?![A-Za-z0-9_])' % n, 'c_%s()' % n) for n in getattr(self, '_const_names', [])])
         text = rules.r14_wildcard(text, p, log)
         text = rules.r15_neg(text, p, log)
         # closures
@@ -395,6 +398,28 @@ class Gen:
                 t = t[:body_open + 1] + '\n' + '\n'.join(fields) + '\n}'
         return 'pub ' + rules.r8r9_paths(t, path, rules.Log())
 
+    def const_text(self, path):
+        """crate-level `const NAME: f64 = INIT;` -> exec accessor c_NAME() + spec constant k_NAME() + an axiom for its
+        real value derived mechanically from INIT (decimal literals, + - * / of them, PI)"""
+        from fractions import Fraction
+        c = self.crate
+        try:
+            it, _ = c.find(path)
+        except KeyError as e:
+            raise AnchorError('lost anchor: %s' % e)
+        t = ' '.join(c.src[it.start:it.end].split())
+        mk = re.match(r'(?:pub(?:\([^)]*\))?\s+)?const\s+(\w+)\s*:\s*f64\s*=\s*(.*);$', t)
+        if not mk:
+            raise AnchorError('%s is not a scalar f64 const: %s' % (path, t[:80]))
+        name, init = mk.group(1), mk.group(2).strip()
+        val = real_expr_of_const_init(init)
+        if val is None:
+            raise AnchorError('%s: initializer %r is outside the const evaluator' % (path, init))
+        self.log.add('R9c', path, t, 'c_%s() with rv == %s' % (name, val[:60]))
+        return ('pub uninterp spec fn k_%s() -> f64;\n#[verifier::external_body]\npub fn c_%s() -> (r: f64) ensures r == k_%s() { unimplemented!() }\n'
+                '#[verifier::external_body]\npub broadcast proof fn ax_const_%s() ensures rv(#[trigger] k_%s()) == %s {}'
+                % (name, name, name, name, name, val)), name
+
     # ---- whole unit
     def unit_text(self, unit):
         parts = []
@@ -405,14 +430,39 @@ class Gen:
         parts.append('use vstd::prelude::*;')
         for pre in unit.preludes:
             parts.append(open(os.path.join(HERE, 'prelude', pre + '.rs')).read())
+        self._lit_slot = len(parts)
+        parts.append('/*LITS*/')
         parts.append('pub mod types {')
         parts.append('use vstd::prelude::*;')
         for pre in unit.preludes:
             parts.append('use crate::%s::*;' % pre.split('_')[0])
         parts.append('verus! {')
+        typed_ax = []
         for tpath in unit.types:
             parts.append('//@item %s' % tpath)
-            parts.append(self.item_text(tpath))
+            it_text = self.item_text(tpath)
+            parts.append(it_text)
+            ms = re.match(r'pub struct\s+(\w+)\s*\{', it_text)
+            if ms:
+                for fm in re.finditer(r'pub\s+(\w+)\s*:\s*f64\s*,', it_text):
+                    nm = 'ax_typed_%s_%s' % (ms.group(1), fm.group(1))
+                    parts.append('#[verifier::external_body]\npub broadcast proof fn %s(s: %s) ensures typed(#[trigger] s.%s) {}'
+                                 % (nm, ms.group(1), fm.group(1)))
+                    typed_ax.append(nm)
+        self._typed = False
+        if typed_ax and not unit.consts:
+            parts.append('pub broadcast group typed_fields { %s }' % ', '.join(typed_ax))
+            self._typed = True
+        self._const_names = []
+        for cpath in unit.consts:
+            ctext, cname = self.const_text(cpath)
+            parts.append('//@item %s' % cpath)
+            parts.append(ctext)
+            typed_ax.append('ax_const_%s' % cname)
+            self._const_names.append(cname)
+        if typed_ax and unit.consts and not self._typed:
+            parts.append('pub broadcast group typed_fields { %s }' % ', '.join(typed_ax))
+            self._typed = True
         parts.append(unit.type_spec)
         parts.append('} // verus!')
         parts.append('} // mod types')
@@ -425,12 +475,17 @@ class Gen:
         parts.append('use std::convert::{From, Into, TryInto, TryFrom};')
         for pre in unit.preludes:
             parts.append('use crate::%s::*;' % pre.split('_')[0])
+        parts.append('/*USE-LITS*/')
         parts.append('verus! {')
         bc = list(unit.broadcast)
+        if 'l1' in unit.preludes:
+            bc.append('all_lits')
+        if self._typed:
+            bc.append('typed_fields')
         if 'ax_vector_refl' in unit.type_spec:
             bc.append('ax_vector_refl')
         if bc:
-            parts.append('broadcast use {%s};' % ', '.join(bc))
+            parts.append('/*BROADCAST:%s*/' % ','.join(bc))
         for raw in unit.raw_items:
             parts.append(raw)
         parts.append('// ---- specification text (hand-written: spec fns and lemmas, no executable code) ----')
@@ -476,7 +531,100 @@ class Gen:
         parts.append('} // verus!')
         parts.append('} // mod unit')
         parts.append('fn main() {}')
-        return '\n'.join(parts) + '\n'
+        text = '\n'.join(parts) + '\n'
+        text = expand_broadcast(text)
+        if 'l1' in unit.preludes:
+            text = text.replace('/*LITS*/', literal_axioms(text, text.index('pub mod unit {')))
+            text = text.replace('/*USE-LITS*/', 'use crate::lits::*;')
+        return text
+
+
+def real_expr_of_const_init(init):
+    """translate a const initializer built from decimal literals, PI, + - * / and parentheses into the real
+    expression it denotes under L1 (float operations are homomorphic)"""
+    from fractions import Fraction
+    e = init.strip()
+    e = re.sub(r'(?:::)?(?:std|core)::f64::consts::PI', 'PI', e)
+    out = []
+    i = 0
+    while i < len(e):
+        c = e[i]
+        if c.isspace():
+            i += 1
+        elif c in '+-*/()':
+            out.append(c)
+            i += 1
+        elif e.startswith('PI', i):
+            out.append('r_pi()')
+            i += 2
+        elif c.isdigit():
+            mm = re.compile(r'[0-9][0-9_]*\.?[0-9_]*(?:[eE][+-]?[0-9]+)?(?:_?f64)?').match(e, i)
+            lit = mm.group(0).replace('_f64', '').replace('f64', '').replace('_', '')
+            if lit.endswith('.'):
+                lit += '0'
+            fr = Fraction(lit)
+            out.append('(%dreal / %dreal)' % (fr.numerator, fr.denominator) if fr.denominator != 1 else '%dreal' % fr.numerator)
+            i = mm.end()
+        else:
+            return None
+    return '(' + ' '.join(out) + ')'
+
+
+def expand_broadcast(text):
+    """`broadcast use` of a *group* was observed not to activate 0-ary/compare axioms reliably in this Verus
+    build; groups are therefore expanded mechanically into their member lemmas (transitively)."""
+    mb = re.search(r'/\*BROADCAST:([^*]*)\*/', text)
+    if not mb:
+        return text
+    groups = {}
+    for mg in re.finditer(r'pub broadcast group\s+(\w+)\s*\{([^}]*)\}', text):
+        groups[mg.group(1)] = [x.strip() for x in mg.group(2).split(',') if x.strip()]
+    out = []
+
+    def add(n):
+        if n == 'all_lits':
+            out.append(n)       # generated later; kept as a group of literal axioms (unary triggers work)
+            return
+        if n in groups:
+            for k in groups[n]:
+                add(k)
+        elif n not in out:
+            out.append(n)
+    for n in mb.group(1).split(','):
+        add(n.strip())
+    return text.replace(mb.group(0), 'broadcast use {%s};' % ', '.join(out))
+
+
+def literal_axioms(text, start):
+    """rule R10: one trusted axiom per distinct float literal of the extracted code: rv(LIT) == its decimal value"""
+    from fractions import Fraction
+    m = mask(text)
+    pat = re.compile(r'(?<![\w.])(\d[\d_]*\.(?!\.)(?![A-Za-z_])\d*(?:[eE][+-]?\d+)?(?:_?f64)?|\d[\d_]*\.\d+(?:[eE][+-]?\d+)?(?:_?f64)?|\d[\d_]*[eE][+-]?\d+(?:_?f64)?|\d[\d_]*_?f64)(?![\w])')
+    lits = {}
+    for mk in pat.finditer(m, start):
+        raw = mk.group(1)
+        if raw.endswith('real'):
+            continue
+        core_ = raw.replace('_f64', '').replace('f64', '').replace('_', '')
+        try:
+            val = Fraction(core_ if not core_.endswith('.') else core_ + '0')
+        except Exception:
+            continue
+        lits[val] = core_
+    out = ['pub mod lits {', 'use vstd::prelude::*;', 'use crate::l1::*;', 'verus! {']
+    names = []
+    for k, (val, core_) in enumerate(sorted(lits.items())):
+        lit = core_ if ('.' in core_ and not core_.endswith('.')) or 'e' in core_.lower() else core_.rstrip('.') + '.0'
+        if val.denominator == 1:
+            rl = '%dreal' % val.numerator
+        else:
+            rl = '(%dreal / %dreal)' % (val.numerator, val.denominator)
+        out.append('#[verifier::external_body]')
+        out.append('pub broadcast proof fn ax_lit_%d() ensures #[trigger] rv(%sf64) == %s {}' % (k, lit, rl))
+        names.append('ax_lit_%d' % k)
+    out.append('pub broadcast group all_lits { %s }' % ', '.join(names) if names else 'pub broadcast proof fn ax_lit_none() ensures true {} pub broadcast group all_lits { ax_lit_none }')
+    out.append('} }')
+    return '\n'.join(out)
 
 
 _OPS = {'Add': 'add', 'Sub': 'sub', 'Mul': 'mul', 'Div': 'div', 'Rem': 'rem', 'Neg': 'neg',
